@@ -205,7 +205,11 @@ def check_case(kind, old_groups, new_groups, acc, lag=None, spaced=None):
     for p in cmds:
         if tuple(p[:-1]) != tuple(path):
             continue
-        act = read_command(p[-1], prefix, syntax, v.reverse)
+        try:
+            act = read_command(p[-1], prefix, syntax, v.reverse)
+        except ValueError:
+            acc.violation("C11/%s/malformed-command" % kind, "an emitted VLAN command does not hold a well-formed VLAN list", dict(w, command=p[-1]))
+            return
         if act is None:
             continue
         acc.count("commands_parsed")
@@ -369,7 +373,11 @@ def check_blocks_case(kind, old_side, new_side, acc):
             elif syntax == "huawei" and m_unblk:
                 act = ("remove", {int(m_unblk.group(1))})
             else:
-                act = read_command(cmd, prefix, syntax, neg)
+                try:
+                    act = read_command(cmd, prefix, syntax, neg)
+                except ValueError:
+                    acc.violation("C11/%s/malformed-command" % kind, "an emitted VLAN command does not hold a well-formed VLAN list", dict(w, command=cmd))
+                    return
             if act is None:
                 continue
             acc.count("commands_parsed")
